@@ -14,7 +14,7 @@ import XrsVerif.Model.Zonal
   * `strides_refines`: the whole program, stated directly about `Gen.IL.strides`.
 -/
 namespace XrsVerif.Zonal
-open XrsVerif XrsVerif.IL
+open XrsVerif XrsVerif.IL XrsVerif.IL.Sd
 set_option linter.unusedSectionVars false
 set_option linter.unusedSimpArgs false
 
